@@ -177,7 +177,7 @@ pub fn run(run: &mut Run) {
         around frame boundaries, fixed chunks incl. 6120/6121), with transient errors (WouldBlock / Interrupted / TimedOut), Pending \
         polls and 90 s stalls injected, optionally ending mid-frame. The same script drives a blocking and a tokio connection over a \
         scripted transport (paused clock); both result lists must equal the reference model (one result per complete frame, each fault \
-        exactly once at its position, then Disconnected). Short streams: all 2^(n-1) partitions (complete). Non-trivial = a frame is \
+        exactly once at its position, then Disconnected). Short streams: all 2^(n-1) partitions (complete). Streams of N four-byte frames for N around 1530, 2670 and 3060 (the receive buffer's capacity and its multiples) in pieces of 1, 2, 3, 5 bytes, ending right after the last frame. Non-trivial = a frame is \
         split across reads, several frames share a read, or the traffic exceeds the 6120-byte buffer."
         .into();
     run.assumptions = vec![
@@ -202,6 +202,28 @@ pub fn run(run: &mut Run) {
     // short random sessions
     let n = run.budget(30_000, 2_000_000);
     run.prop(&Sessions, session_strategy(8, 2, 1, true, Some(false)), n);
+    // end of stream at every point around the receive buffer's capacity (6120 bytes) and its multiples: sessions of N four-byte
+    // frames for every N near 6120/4, 2*6120/4, ... delivered in pieces of 1, 2, 3 and 5 bytes, ending exactly after the last frame
+    {
+        let mut cases = vec![];
+        for compressed in [false, true] {
+            let mode = if compressed { Mode::Compressed } else { Mode::Uncompressed };
+            for piece in [1usize, 2, 3, 5] {
+                for n in (1300..=1560usize).chain(2640..=2700).chain(3050..=3070) {
+                    if (n + piece) % 2 == 1 && !(1525..=1535).contains(&n) && !(1335..=1342).contains(&n) && !(2672..=2680).contains(&n) {
+                        continue; // half of the lengths away from the marks, all of them around the marks
+                    }
+                    let mut stream = Vec::with_capacity(4 * n);
+                    for i in 0..n {
+                        stream.extend_from_slice(&frame_bytes(&FrameSpec::Tiny(3, (i % 255 + 1) as u8), &mode));
+                    }
+                    let steps: Vec<ReadStep> = stream.chunks(piece).map(|c| ReadStep::Data(c.to_vec())).collect();
+                    cases.push(SessionCase { compressed, verify: false, steps, writes: vec![], label: format!("{n} frames in pieces of {piece}") });
+                }
+            }
+        }
+        run.list(&Sessions, "generated-sessions", cases);
+    }
     // thorough tier only: real quiet periods (12 s and 31 s of wall-clock time) between and inside frames - behaviour keyed on
     // std::time::Instant (stall guards, idle timers shorter than the 90 s timeout) is invisible to everything else
     if !run.quick() {
